@@ -178,7 +178,7 @@ def _determinism_check(case):
     import random
     rng = random.Random(case['det_seed'])
     n = case.get('det_runs', 4)
-    fmt = rng.choice(FORMATS)
+    fmt = case.get('det_fmt') or rng.choice(FORMATS)
     ref = None
     for k in range(n):
         seed = 0 if k == 0 else rng.randrange(1, 2 ** 32 - 1)
@@ -254,6 +254,63 @@ def dotted_cases(rng, n):
     return out
 
 
+MNEMONIC_ISA = '''
+description: verif mnemonic families
+general:
+  address_size: 16
+  endian: big
+  registers: [a]
+  identifier: {name: verif-mn, version: "1.0.0"}
+operand_sets:
+  imm:
+    operand_values:
+      n: {type: numeric, argument: {size: 8, byte_align: true}}
+instructions:
+INSTRS
+'''
+
+
+def mnemonic_family_cases(rng, n):
+    """mnemonics that are prefixes, dotted extensions and dotted suffixes of one another, in any order in the ISA file:
+    which one a statement names must not depend on the order in which a set happens to be iterated"""
+    out = []
+    for _ in range(n):
+        stem = rng.choice(['ld', 'st', 'mv'])
+        suf = rng.choice(['b', 'w', 'x'])
+        names = [stem, f'{stem}.{suf}', suf, stem + suf, f'{stem}.{suf}{suf}', stem + 'i']
+        names = rng.sample(names, rng.randint(3, len(names)))
+        if f'{stem}.{suf}' not in names:
+            names.append(f'{stem}.{suf}')
+        rng.shuffle(names)
+        instrs = '\n'.join(f'  "{m}":\n    bytecode: {{value: {i + 1}, size: 8}}\n    operands: {{count: 1, operand_sets: {{list: [imm]}}}}'
+                           for i, m in enumerate(names))
+        stmts = [['other_text', f'{rng.choice(names)} ${rng.randrange(256):02x}'] for _ in range(rng.randint(2, 5))]
+        stmts.append(['other_text', f'{stem}.{suf} $56'])
+        out.append({'cfg': {'addr_bits': 16, 'cli': []}, 'isa_yaml': MNEMONIC_ISA.replace('INSTRS', instrs),
+                    'files': [{'name': 'main.asm', 'dir': 'src', 'stmts': stmts}], 'include_dirs': [], 'extra_files': [],
+                    'opts': {'start': 0, 'end': None, 'fill': 0}, 'det_seed': rng.randrange(1 << 30), 'det_runs': 8, 'isa': {'macros': {}}})
+    return out
+
+
+def symlink_include_cases(rng, n):
+    """one file reachable through two include directories (a symbolic link): whatever the assembler makes of it, it must make
+    the same of it on every run"""
+    from .sysgen import num
+    out = []
+    for _ in range(n):
+        dirs = rng.sample(['lib_core', 'lib_vendor', 'inc', 'zlib', 'a_inc'], 2)
+        common = [['data', 1, [num(rng.randrange(256))]], ['data', 1, [num(7)]]]
+        main = [['data', 1, [num(1)]], ['include', 1, 'common.asm'], ['data', 1, [num(2)]]]
+        c = {'cfg': dict(addr_bits=16, endian='big', origin=0, page=1, terminator=0, embedded=False, zones=[], consts=[], data=[],
+                         syms=[], cli=[]),
+             'files': [{'name': 'main.asm', 'dir': 'src', 'stmts': main}, {'name': 'common.asm', 'dir': dirs[0], 'stmts': common}],
+             'symlinks': [{'dir': dirs[1], 'name': 'common.asm', 'target': f'{dirs[0]}/common.asm'}],
+             'include_dirs': list(dirs), 'extra_files': [], 'opts': {'start': 0, 'end': None, 'fill': 0},
+             'det_seed': rng.randrange(1 << 30), 'det_runs': 10, 'det_fmt': 'listing', 'isa': {'macros': {}}}
+        out.append(c)
+    return out
+
+
 def isa_determinism_oracle(n_quick=25, n_thorough=400):
     def gen(rng, tier):
         from . import sysisa
@@ -263,7 +320,9 @@ def isa_determinism_oracle(n_quick=25, n_thorough=400):
             c['det_seed'] = rng.randrange(1 << 30)
             c['det_runs'] = 4 if tier == 'quick' else 10
             out.append(c)
-        return out + dotted_cases(rng, 12 if tier == 'quick' else 150)
+        q = tier == 'quick'
+        return (out + dotted_cases(rng, 12 if q else 150) + mnemonic_family_cases(rng, 12 if q else 150)
+                + symlink_include_cases(rng, 4 if q else 40))
     return Oracle(name='determinism_isa', gen=gen, check=_isa_determinism_check, nontrivial=lambda c: True,
                   classify=lambda c: 'isa', timeout=600)
 
@@ -344,10 +403,19 @@ def failclosed_oracle(n_quick=120, n_thorough=2500):
                 # one of the four things for which success must never be reported
                 from .sysgen import num
                 kind = rng.choice(['unresolvable label', 'unknown instruction', 'no variant accepts', 'value does not fit'])
-                st = {'unresolvable label': ['data', 2, [('lab', 'nowhere_defined')]],
-                      'unknown instruction': ['other_text', 'frobnicate a, 5'],
-                      'no variant accepts': ['instr', 'ldi', ['a', 'b']],
-                      'value does not fit': ['instr', 'ldi', ['a', num(rng.choice([256, 1000, -129]))]]}[kind]
+                lab = ('lab', rng.choice(['nowhere_defined', '.nolocal', '_nofile']))
+                st = {'unresolvable label': rng.choice([
+                          ['data', 2, [lab]], ['data', 1, [num(1), lab]], ['fill', num(0), lab], ['fill', num(2), lab],
+                          ['fill', lab, num(0)], ['zero', lab], ['zerountil', lab], ['instr', 'jmp', [lab]],
+                          ['instr', 'ldi', ['a', ('bin', '-', lab, lab)]], ['org', lab, None], ['align', lab],
+                          ['const', 'KUNRES', lab]]),
+                      'unknown instruction': rng.choice([['other_text', 'frobnicate a, 5'], ['other_text', 'ldii a, 5'], ['other_text', 'nopp'],
+                                                         ['other_text', '.bite 1']]),
+                      'no variant accepts': rng.choice([['instr', 'ldi', ['a', 'b']], ['instr', 'nop', [num(1)]], ['instr', 'ldi', ['a']],
+                                                        ['instr', 'ldi', ['a', num(1), num(2)]], ['instr', 'jmp', ['a']]]),
+                      'value does not fit': rng.choice([['instr', 'ldi', ['a', num(rng.choice([256, 1000, -129]))]],
+                                                        ['instr', 'jmp', [num(rng.choice([65536, -32769]))]],
+                                                        ['instr', 'lda', [num(rng.choice([0x1000, -2049]))]]])}[kind]
                 depth = 0
                 tops = [0]
                 for i, s in enumerate(main):
@@ -365,6 +433,38 @@ def failclosed_oracle(n_quick=120, n_thorough=2500):
                     c['pp_out'] = 'no_such_dir/out.txt'      # the pretty print cannot be written
             out.append(c)
         return out
-    return Oracle(name='failclosed', gen=gen, check=_failclosed_check, nontrivial=nontrivial,
+    def corpus():
+        # every must-fail form, as the first, a middle and the last statement of a fixed valid program
+        import random
+        from .sysgen import num
+        out = []
+        forms = []
+        for lab in (('lab', 'nowhere_defined'), ('lab', '.nolocal')):
+            forms += [('unresolvable label', st) for st in (
+                ['data', 2, [lab]], ['data', 1, [num(1), lab]], ['fill', num(0), lab], ['fill', num(2), lab], ['fill', lab, num(0)],
+                ['zero', lab], ['zerountil', lab], ['instr', 'jmp', [lab]], ['instr', 'ldi', ['a', ('bin', '-', lab, lab)]],
+                ['org', lab, None], ['align', lab], ['const', 'KUNRES', lab])]
+        forms += [('unknown instruction', ['other_text', t]) for t in ('frobnicate a, 5', 'ldii a, 5', 'nopp', '.bite 1')]
+        forms += [('no variant accepts', st) for st in (['instr', 'ldi', ['a', 'b']], ['instr', 'nop', [num(1)]], ['instr', 'ldi', ['a']],
+                                                        ['instr', 'ldi', ['a', num(1), num(2)]], ['instr', 'jmp', ['a']])]
+        forms += [('value does not fit', st) for st in (['instr', 'ldi', ['a', num(256)]], ['instr', 'ldi', ['a', num(-129)]],
+                                                        ['instr', 'jmp', [num(65536)]], ['instr', 'lda', [num(0x1000)]])]
+        # (data directives reduce their values modulo 2^width by C11: '.byte 256' is not a value its field cannot hold)
+        for k, (kind, st) in enumerate(forms):
+            for where in ('first', 'middle', 'last'):
+                base = gen_program(random.Random(f'failclosed-corpus-{k % 3}'), dict(prof, w={'label': 6, 'instr': 20, 'data': 10}), 'quick')
+                main = base['files'][0]['stmts']
+                depth, tops = 0, [0]
+                for i, s_ in enumerate(main):
+                    depth += 1 if s_[0] == 'if' else (-1 if s_[0] == 'endif' else 0)
+                    if depth == 0:
+                        tops.append(i + 1)
+                pos = {'first': 0, 'middle': tops[len(tops) // 2], 'last': len(main)}[where]
+                main.insert(pos, list(st))
+                base['must_fail'] = kind
+                base['preseed'] = (k % 2 == 0)
+                out.append(base)
+        return out
+    return Oracle(name='failclosed', gen=gen, check=_failclosed_check, nontrivial=nontrivial, corpus=corpus,
                   classify=lambda c: 'must_fail' if c.get('must_fail') else ('garbled' if c.get('garble') is not None else 'valid'),
                   timeout=300)
